@@ -191,6 +191,7 @@ RULES = [
     (r'_twin(_\w+)?$', dict(expect='fail', weight=0)),
     (r'^c10_', dict(arena=64)),
     (r'^c18_', dict(arena=64)),
+    (r'^c18_q_(vba|twin_vba)', dict(arena=256, fs_array=256)),
     (r'^c12_', dict(arena=64)),
     (r'^c04_', dict(arena=64, timeout=300)),
     (r'^c06_', dict(arena=64, timeout=400, mem_gb=8.0)),
@@ -236,12 +237,17 @@ def config_for(pid, name, tier):
     if tier == 'quick' and t != 'quick':
         return None
     cfg = dict(DEFAULT)
+    thorough = False
     if tier == 'thorough':
-        cfg['timeout'] = 3000
+        cfg['timeout'] = 900
         cfg['mem_gb'] = 20.0
+        thorough = True
     for rx, ov in RULES:
         if re.search(rx, name):
             cfg.update(ov)
+    if thorough:
+        cfg['timeout'] = max(cfg['timeout'], 900)
+        cfg['mem_gb'] = max(cfg['mem_gb'], 20.0)
     return cfg
 
 
